@@ -94,6 +94,7 @@ func main() {
 	if *tier == "thorough" {
 		ctx.Budget = 20
 	}
+	ctx.Rep.AutoPath = *out
 	if *drv != "none" {
 		d, err := hx.StartDriver(*drv)
 		if err != nil {
